@@ -66,6 +66,10 @@ pub struct CeremonyTrace {
     /// member carries the other key's id
     #[serde(default)]
     pub auth_json_alias: Vec<(usize, usize)>,
+    /// the signature objects exactly as they were made when the violation was found (randomised
+    /// schemes: ring's entropy is not a function of the seed); when present nothing is signed again
+    #[serde(default)]
+    pub frozen_sigs: Option<Value>,
 }
 
 /// The same key material declared with another scheme (None if the library refuses to build it).
@@ -133,6 +137,21 @@ pub struct Prepared {
 pub fn prepare(t: &CeremonyTrace) -> Prepared {
     let signed = body_value(&t.body, &t.keys);
     let mut fired = vec![];
+    if let Some(fz) = &t.frozen_sigs {
+        // replay of a recorded run: the block's metadata from the body, the signatures as recorded
+        let text = serde_json::to_string(&signed).unwrap_or_default();
+        return match MetadataWrapper::try_from_bytes(text.as_bytes()) {
+            Ok(meta) => match Metablock::new(meta, &[]) {
+                Ok(mb) => {
+                    let mut state3 = serde_json::to_value(&mb).unwrap_or(Value::Null);
+                    state3["signatures"] = fz.clone();
+                    Prepared { mb: Some(mb), state3, unsignable: None, fired }
+                }
+                Err(e) => Prepared { mb: None, state3: Value::Null, unsignable: Some(format!("{e}")), fired },
+            },
+            Err(e) => Prepared { mb: None, state3: Value::Null, unsignable: Some(format!("{e}")), fired },
+        };
+    }
     let mb = match construct(&signed, &t.signers, &t.keys, t.builder_path) {
         Ok(m) => m,
         Err(e) => return Prepared { mb: None, state3: Value::Null, unsignable: Some(e), fired },
@@ -446,18 +465,28 @@ fn exec_prepared(t: &CeremonyTrace, p: &Prepared, rec: &mut RunRecord, seed: u64
     let f = judge_ceremony(t, &o);
     let before = rec.own.len();
     let r = fold(t, &o, f, rec, seed, index, prop);
+    if rec.own.len() > before && t.frozen_sigs.is_none() && t.keys.iter().any(|k| !k.kind.is_ed()) {
+        for v in rec.own.iter_mut().skip(before) {
+            if let Trace::Ceremony(c) = &mut v.trace {
+                c.frozen_sigs = Some(p.state3["signatures"].clone());
+            }
+        }
+    }
     if let Some(h) = history {
         for v in rec.own.iter_mut().skip(before) {
-            v.trace = Trace::Seq(vec![Trace::Ceremony(h.clone()), v.trace.clone()]);
+            let mut hh = h.clone();
+            if let Trace::Ceremony(c) = &v.trace {
+                hh.frozen_sigs = c.frozen_sigs.clone();
+            }
+            v.trace = Trace::Seq(vec![Trace::Ceremony(hh), v.trace.clone()]);
         }
     }
     r
 }
 
 fn exec_and_fold(t: &CeremonyTrace, rec: &mut RunRecord, seed: u64, index: u64, prop: &str) -> Vec<Finding> {
-    let o = run_ceremony(t);
-    let f = judge_ceremony(t, &o);
-    fold(t, &o, f, rec, seed, index, prop)
+    let p = prepare(t);
+    exec_prepared(t, &p, rec, seed, index, prop, None)
 }
 
 // ---------------------------------------------------------------------------------------------
@@ -501,6 +530,8 @@ pub fn gen_body(r: &mut Rng, seed: u64, keys: &mut Vec<KeySpec>) -> BodySpec {
                 s.cmd = vec![gen::text(r)];
             }
             if r.chance(1, 3) {
+                let pre = ["src", "out/", "./x", "a//b", "", "\u{e9}", " ", "/", "x/../y", "d/"];
+                s.exp_mat.push(vec!["MATCH".into(), gen::text(r), "IN".into(), r.pick(&pre).to_string(), "WITH".into(), "PRODUCTS".into(), "IN".into(), r.pick(&pre).to_string(), "FROM".into(), gen::text(r)]);
                 s.exp_mat.push(vec!["MATCH".into(), "*".into(), "IN".into(), "src".into(), "WITH".into(), "MATERIALS".into(), "IN".into(), "dst".into(), "FROM".into(), s.name.clone()]);
                 s.exp_prod.push(vec![r.pick(&["CREATE", "DELETE", "MODIFY", "ALLOW", "REQUIRE", "DISALLOW"]).to_string(), "out/*".into()]);
             }
@@ -541,6 +572,7 @@ fn base_trace(seed: u64, tier: Tier, mode: Mode) -> (CeremonyTrace, Rng) {
         labels: vec![],
         auth_scheme: vec![],
         auth_json_alias: vec![],
+        frozen_sigs: None,
     };
     (t, r)
 }
@@ -682,8 +714,9 @@ pub fn run_c09(tier: Tier, seed: u64, index: u64, rec: &mut RunRecord) {
             KeyKind::Ecdsa => "ecdsa-sha2-nistp256",
             KeyKind::Rsa2048S256 | KeyKind::Rsa4096S256 => "rsassa-pss-sha256",
             KeyKind::Rsa2048S512 | KeyKind::Rsa4096S512 => "rsassa-pss-sha512",
+            KeyKind::RsaUnknown => "rsassa-pss-sha384",
         };
-        for other in ["ed25519", "ecdsa-sha2-nistp256", "rsassa-pss-sha256", "rsassa-pss-sha512"] {
+        for other in ["ed25519", "ecdsa-sha2-nistp256", "rsassa-pss-sha256", "rsassa-pss-sha512", "rsassa-pss-sha384"] {
             if other == own {
                 continue;
             }
@@ -744,6 +777,15 @@ fn near_collisions(s: &str) -> Vec<String> {
     v.push(format!("{s}\",\"x\":\"y"));
     if s.len() > 1 {
         v.push(s[..s.len() - s.chars().last().unwrap().len_utf8()].to_string());
+    }
+    // white space: what a tokenizer would not tell apart
+    v.push(format!("{s} "));
+    v.push(format!(" {s}"));
+    v.push(format!("{s}\t"));
+    if s.contains(' ') {
+        v.push(s.replacen(' ', "  ", 1));
+        v.push(s.replacen(' ', "\t", 1));
+        v.push(s.replacen(' ', "", 1));
     }
     v
 }
@@ -846,6 +888,16 @@ pub fn run_c05(tier: Tier, seed: u64, index: u64, rec: &mut RunRecord) {
                 }
                 // duplicate the element
                 edits.push(DocOp::Set { ptr: format!("{parent}/{}", 99999), value: old.clone() });
+                // an empty element next to it; the element split at its first blank
+                edits.push(DocOp::Insert { ptr: parent.to_string(), index: i, values: vec![json!("")] });
+                if let Value::String(sv) = old {
+                    if let Some((a, b)) = sv.split_once(' ') {
+                        let mut tt = t.clone();
+                        tt.ops = vec![DocOp::Set { ptr: ptr.clone(), value: json!(a) }, DocOp::Insert { ptr: parent.to_string(), index: i + 1, values: vec![json!(b)] }];
+                        tt.labels = vec!["ARG-SPLIT".into()];
+                        exec_prepared(&tt, &prepared, rec, seed, index, "C05", Some(&genuine));
+                    }
+                }
             } else {
                 // object member: rename the key (to another word of its class, or by one character)
                 {
